@@ -763,33 +763,41 @@ bool XmlElement::GetAttr(const string& what, string& target) const
 //-----------------------------------------------------------------------------------------
 const string& XmlElement::InplaceXlate (string& what)
 {
+	// Single left to right pass: the characters produced by a reference are not scanned again, so an escaped
+	// ampersand followed by reference syntax stays literal ("&amp;lt;" is "&lt;", "&amp;#65;" is "&#65;").
 	RegMatch match;
-	while (rCX_.SearchString(match, what, 2) == 2)
+	for (string::size_type pos(0); (pos = what.find('&', pos)) != string::npos; ++pos)
 	{
+		const string::size_type epos(what.find(';', pos));
+		if (epos == string::npos)
+			break;
+		const string ref(what, pos, epos - pos + 1);	// candidate "&...;", a reference only if it matches at its start
 		string whatv;
-		rCX_.SubExpr(match, what, whatv, 0, 1);
-		const auto sitr(stringtochar_.find(whatv));
-		rCX_.Replace(match, what, sitr == stringtochar_.cend() ? '?' : sitr->second); // not found character entity replaces string with '?'
-	}
-
-	while (rCE_.SearchString(match, what, 2) == 2)	// translate Numeric character references &#x12d; or &#12;
-	{
-		string whatv;
-		rCE_.SubExpr(match, what, whatv, 0, 1);
-		istringstream istr(whatv);
-		int value;
-		if (whatv[0] == 'x')
+		if (rCX_.SearchString(match, ref, 2) == 2 && match.SubPos() == 0)
 		{
-			istr.ignore();
-			istr >> hex >> value;
+			rCX_.SubExpr(match, ref, whatv, 0, 1);
+			const auto sitr(stringtochar_.find(whatv));
+			what.replace(pos, ref.size(), 1, sitr == stringtochar_.cend() ? '?' : sitr->second); // not found character entity replaces string with '?'
 		}
-		else
-			istr >> dec >> value;
-		string oval;
-		if (value & 0xff00)	// handle hi byte
-			oval += static_cast<char>(value >> 8 & 0xff);
-		oval += static_cast<char>(value & 0xff);
-		rCE_.Replace(match, what, oval);
+		else if (rCE_.SearchString(match, ref, 2) == 2 && match.SubPos() == 0)	// Numeric character references &#x12d; or &#12;
+		{
+			rCE_.SubExpr(match, ref, whatv, 0, 1);
+			istringstream istr(whatv);
+			int value;
+			if (whatv[0] == 'x')
+			{
+				istr.ignore();
+				istr >> hex >> value;
+			}
+			else
+				istr >> dec >> value;
+			string oval;
+			if (value & 0xff00)	// handle hi byte
+				oval += static_cast<char>(value >> 8 & 0xff);
+			oval += static_cast<char>(value & 0xff);
+			what.replace(pos, ref.size(), oval);
+			pos += oval.size() - 1;
+		}
 	}
 
 	if (!(flags_ & noextensions))
